@@ -532,6 +532,14 @@ def exec_code(stmts, st):
             v = eval_expr(s.expr, st)
             if isinstance(v, bool):
                 v = CTX.one() if v else CTX.one() * 0
+            else:
+                # NM-TRAN variables are double precision: a value beyond its range is an overflow in NONMEM, not a
+                # number to compare (50-digit arithmetic would carry on with 10**(10**40))
+                try:
+                    if abs(v) > 1e300:
+                        raise RefError("overflow of double precision")
+                except TypeError:
+                    pass
             st[s.target] = v
         else:
             # conditions are evaluated in order at the time the block is entered; first true branch runs
